@@ -116,6 +116,8 @@ mod imp {
     /// Runs `body` up to `n` times on sampled draws; on the first real panic writes the draws as a replay file.
     pub fn sample<F: Fn()>(harness: &str, cfg: (u64, u64), body: F) {
         let (n, seed) = cfg;
+        // harnesses named *_heavy cost milliseconds per iteration: a tenth of the iterations
+        let n = if harness.ends_with("_heavy") { (n / 10).max(1) } else { n };
         let mut h: u64 = 0xcbf29ce484222325;
         for b in harness.bytes() {
             h = (h ^ b as u64).wrapping_mul(0x100000001b3);
